@@ -1397,6 +1397,10 @@ def rs_zeta(ctx, s, derivative=0, **kwargs):
             return zeta_half(ctx, s, derivative)
         else:
             return zeta_offline(ctx, s, derivative)
+    except OverflowError:
+        # (the error estimates are made with floats, which cannot hold
+        # 9**sigma far from the critical line: the callers fall back)
+        raise NotImplementedError("Riemann-Siegel can not compute with such sigma")
     finally:
         ctx.prec = prec
 
@@ -1413,5 +1417,7 @@ def rs_z(ctx, w, derivative=0):
             return z_half(ctx, w, derivative)
         else:
             return z_offline(ctx, w, derivative)
+    except OverflowError:
+        raise NotImplementedError("Riemann-Siegel can not compute with such sigma")
     finally:
         ctx.prec = prec
